@@ -33,6 +33,13 @@ REL = COMMS + '.release'
 UAPPEND = 'dawgie.db.shelve.util.append'
 UCONSTRUCT = 'dawgie.db.shelve.util.construct'
 TABLE = 'dawgie.db.shelve.enums.Table.'
+DECODE = 'dawgie.db.util.decode'
+DATA_DBS = ('glob', 'dawgie.context.data_dbs')
+POST_LOAD = 'dawgie.db.post.Interface._load'
+# decorators that leave the function's result per call alone
+PLAIN_DECORATORS = {'staticmethod', 'classmethod', 'property', 'abstractmethod'}
+MEMO_DECORATORS = {'lru_cache', 'cache', 'cached_property', 'memoize', 'memoized', 'memoise', 'cached', 'cachedmethod'}
+UNPICKLERS = {'external:pickle.load', 'external:pickle.loads', 'external:_pickle.load', 'external:_pickle.loads'}
 
 FIELDS = ('run', 'target', 'task', 'algorithm', 'state vector', 'value')
 TABLES = (None, 'target', 'task', 'alg', 'state', 'value')  # table of each key field (prime table layout)
@@ -673,6 +680,8 @@ class _Sym(Flow):
     # ------------------------------------------------------------ statements
     def _bind(self, target, vt, st, node):
         if isinstance(target, ast.Name):
+            if target.id in self._globals():
+                self._store('global-store', node, ('glob', f'{self.f.module.name}.{target.id}'), None, vt, st)
             return _s(st, target.id, vt)
         if isinstance(target, (ast.Tuple, ast.List)):
             n = len(target.elts)
@@ -689,6 +698,12 @@ class _Sym(Flow):
         elif isinstance(target, ast.Attribute):
             self._store('attr-store', node, self.T(target.value, st), C(target.attr), vt, st)
         return st
+
+    def _globals(self):
+        g = self.__dict__.get('_gl')
+        if g is None:
+            g = self.__dict__['_gl'] = {n for x in self.f.own_nodes() if isinstance(x, (ast.Global, ast.Nonlocal)) for n in x.names}
+        return g
 
     def _store(self, kind, node, base, idx, value, st):
         self.stores.setdefault(id(node), (node, set()))[1].add((kind, base, idx, value, _g(st, '#present'), _g(st, '#cands')))
@@ -780,7 +795,9 @@ class _Sym(Flow):
         return self._forks[k]
 
     def on_with(self, item, st):
-        if item.optional_vars is not None:
+        if isinstance(item.optional_vars, ast.Name):
+            st = _s(st, item.optional_vars.id, ('ctx', self.T(item.context_expr, st)))
+        elif item.optional_vars is not None:
             for n in ast.walk(item.optional_vars):
                 if isinstance(n, ast.Name):
                     st = _s(st, n.id, None)
@@ -1004,7 +1021,7 @@ class _Sym(Flow):
                 else:
                     new = ('mut', m, old, args)
                 st = _s(st, recv.id, new)
-            elif not (old[0] == 'glob' or is_log):
+            elif not is_log:
                 self._store('mutcall:' + m, call, old, args[0] if args else None, args[1] if len(args) > 1 else None, st)
         elif g is None or not self.an.inlineable(g):
             # an unknown callee may change a literal list handed to it
@@ -1845,6 +1862,173 @@ def rule5(ctx, rep, fx):
         _topup(r)
 
 
+def _decorator_problems(f):
+    """why calls of f may not produce a fresh result each time, judging by its decorators / re-bindings"""
+    out = []
+    for d in f.node.decorator_list:
+        core = d.func if isinstance(d, ast.Call) else d
+        name = core.attr if isinstance(core, ast.Attribute) else (core.id if isinstance(core, ast.Name) else None)
+        if name in PLAIN_DECORATORS and not isinstance(d, ast.Call):
+            continue  # binding only: the body runs on every call
+        if isinstance(d, ast.Attribute) and d.attr in ('setter', 'getter', 'deleter'):
+            continue  # property plumbing
+        if name in MEMO_DECORATORS:
+            out.append(f'@{norm(d)} memoises {f.name}: every caller with equal arguments receives the same object')
+        else:
+            out.append(f'decorator @{norm(d)} on {f.name} is not known to run the body and hand out its result on every call')
+    body = f.cls.node.body if f.cls is not None and f.parent is None else (f.module.tree.body if f.parent is None else [])
+    for st in body:
+        if isinstance(st, ast.Assign) and any(isinstance(t, ast.Name) and t.id == f.node.name for t in st.targets):
+            out.append(f'{f.name} is re-bound after its definition ({norm(st)[:70]}): callers do not reach the analysed body directly')
+    return out
+
+
+def _is_decoded(t):
+    """term of an object that came out of unpickling in this call"""
+    if not (isinstance(t, tuple) and t and t[0] == 'call'):
+        return False
+    if is_call_to(t, DECODE):
+        return True
+    if t[1][0] == 'glob' and t[1][1] in UNPICKLERS:
+        return True
+    # pickle.Unpickler(f).load()
+    return t[1][0] == 'attr' and t[1][2] == 'load' and t[1][1][0] == 'call' and t[1][1][1] == ('glob', 'external:pickle.Unpickler')
+
+
+def _path_ok(run, path, entry):
+    """the opened path is data_dbs/<entry>, directly or through a hand-made cache of *paths* keyed by the entry"""
+    if contains(path, DATA_DBS) and contains(path, entry):
+        return True, 'data_dbs joined with the entry'
+    cont = meth = None
+    if path[0] == 'sub' and path[2] == entry:
+        cont = path[1]
+    elif path[0] == 'call' and path[3] and path[3][0][1] == entry:
+        if path[1][0] == 'attr':
+            cont, meth = path[1][1], path[1][2]
+        elif path[1][0] == 'glob' and '.' in path[1][1]:
+            cont, meth = ('glob', path[1][1].rpartition('.')[0]), path[1][1].rpartition('.')[2]
+        if meth not in ('get', 'setdefault', 'pop'):
+            cont = None
+        if meth == 'setdefault' and not (len(path[3]) == 2 and contains(path[3][1][1], DATA_DBS) and contains(path[3][1][1], entry)):
+            return False, ''
+    if cont is None:
+        return False, ''
+    writes = [ev for _n, evs in run.stores.values() for ev in evs if ev[1] == cont]
+    good = [ev for ev in writes if ev[2] == entry and ev[3] is not None and contains(ev[3], DATA_DBS) and contains(ev[3], entry) and not any(_is_decoded(x) for x in subterms(ev[3]))]
+    if meth == 'setdefault' and not writes:
+        return True, f'path cache {show(cont)} filled with data_dbs/<entry>'
+    if writes and len(good) == len(writes):
+        return True, f'path cache {show(cont)} keyed by the entry and filled only with data_dbs/<entry>'
+    return False, ''
+
+
+def _fresh_problem(run, t, entry):
+    """why the returned term t is not an object unpickled in this call from data_dbs/<entry> (None if it is)"""
+    if not _is_decoded(t) or is_call_to(t, DECODE):
+        return f'returns {show(t)}, which is not the result of pickle.load(s) executed in this call'
+    args = [a for _k, a in t[3]] if t[1][0] == 'glob' else [a for _k, a in t[1][1][3]]
+    if not args:
+        return 'unpickles nothing'
+    src = args[0]
+    if t[1][0] == 'glob' and t[1][1].endswith('loads'):
+        if not (src[0] == 'call' and src[1][0] == 'attr' and src[1][2] == 'read'):
+            return f'unpickles {show(src)}, not the bytes read from the blob file in this call'
+        src = src[1][1]
+    if src[0] == 'ctx':
+        src = src[1]
+    if not (src[0] == 'call' and src[1][0] == 'glob' and src[1][1] in ('external:open', 'external:io.open') and src[3]):
+        return f'unpickles from {show(src)}, not from a file opened in this call'
+    ok, _how = _path_ok(run, src[3][0][1], entry)
+    if not ok:
+        return f'opens {show(src[3][0][1])}, which is not recognisably <data_dbs>/<entry>'
+    return None
+
+
+def _persistent(f, base):
+    """base denotes a container that outlives the call: module / class level, the instance, or a mutable default argument"""
+    if base is None:
+        return None
+    root = base
+    while root[0] in ('attr', 'sub') or (root[0] == 'call' and root[1][0] in ('attr', 'glob')):
+        root = (root[1][1] if root[1][0] == 'attr' else root[1]) if root[0] == 'call' else root[1]
+    if root[0] == 'glob':
+        return 'module / class level ' + show(base)
+    if root == SELF or (root[0] == 'param' and f.cls is not None and not f.is_staticmethod() and f.params()[:1] == [root[1]]):
+        return 'the instance (' + show(base) + ')'
+    if root[0] == 'param':
+        a = f.node.args
+        pos = a.posonlyargs + a.args
+        dflt = dict(zip([x.arg for x in pos[len(pos) - len(a.defaults):]], a.defaults))
+        d = dflt.get(root[1])
+        if d is not None and not isinstance(d, ast.Constant):
+            return f'the mutable default argument {root[1]}'
+    return None
+
+
+def rule6(ctx, rep, fx):
+    prog, cg, an = ctx.prog, ctx.cg, fx.an
+    dec = prog.func(DECODE)
+    with rep.rule(
+        'R-C06-6',
+        'each load materialises a fresh object from the store: no function on the read path _load -> _get_prime -> db.util.decode (nor on the '
+        'PostgreSQL read path) is memoised or carries an unknown decorator; decode returns what pickle.load(s) produced in the same call from the file '
+        'opened at data_dbs/<entry>; neither decode nor the functions between it and _load keep the decoded object in a container that outlives the call',
+        floor=6,
+        breaks='two loads share one unpickled object: an algorithm that changes its loaded state vector in place alters what every later load of that blob returns '
+        '(also exact-run hits and other authors / targets whose equal content de-duplicated to the blob)',
+    ) as r:
+        fwd = cg.reachable([fx.load.qname], kinds={'direct'})
+        path = [prog.funcs[q] for q in sorted(fwd) if an.reaches(q, DECODE)]
+        if dec not in path or len(path) < 2:
+            r.instance()
+            r.fail(f'{fx.load.qname}:read-path', where(fx.load), 'no call path from _load to db.util.decode: loaded values do not come from the blob store')
+        siblings = []
+        if POST_LOAD in prog.funcs:
+            pf = cg.reachable([POST_LOAD], kinds={'direct'})
+            siblings = [prog.funcs[q] for q in sorted(pf) if an.reaches(q, DECODE) and prog.funcs[q] not in path]
+        r.extra['read_path'] = [f.qname for f in path]
+        r.extra['sibling_read_path'] = [f.qname for f in siblings]
+        # (a) decorators / re-binding
+        for f in path + siblings:
+            rep.analysed(f)
+            r.instance()
+            probs = _decorator_problems(f)
+            r.check(not probs, f'{f.qname}:fresh-per-call', where(f), 'undecorated (or binding-only decorators): the body runs on every call', '; '.join(probs), nontrivial=False)
+        # (b) decode returns the object unpickled in this call from data_dbs/<entry>
+        ps = dec.params()
+        if not ps:
+            raise AnalysisError('db.util.decode takes no entry parameter')
+        entry = ('param', ps[0])
+        run = an.run(dec)
+        rets = set(run.returns) | ({CNONE} if run.out.normal else set())
+        r.instance()
+        probs = sorted({p for p in (_fresh_problem(run, t, entry) for t in rets) if p})
+        if not rets:
+            probs = ['decode never returns']
+        r.check(
+            not probs, f'{dec.qname}:returns-fresh-unpickle', where(dec), f'{len(rets)} return term(s): ' + '; '.join(sorted(show(t) for t in rets)),
+            'decode ' + '; '.join(probs),
+        )
+        # (c) the decoded object is not kept
+        for f in [x for x in path if x is not fx.load]:
+            run = an.run(f)
+            r.instance()
+            kept = []
+            for node, evs in sorted(run.stores.values(), key=lambda x: (x[0].lineno, x[0].col_offset)):
+                for kind, base, idx, val, _p, _c in sorted(evs, key=str):
+                    if not any(_is_decoded(x) for part in (idx, val) if part is not None for x in subterms(part)):
+                        continue
+                    where_kept = _persistent(f, base)
+                    if where_kept:
+                        kept.append((node, f'{norm(node)[:70]} keeps the decoded object in {where_kept}'))
+            r.check(
+                not kept, f'{f.qname}:decoded-object-not-kept', where(f, kept[0][0] if kept else None),
+                'no store of the decoded object into a module-level, class-level, instance or default-argument container',
+                '; '.join(k[1] for k in kept) + ': a hand-made cache hands the same object to the next load',
+            )
+        _topup(r)
+
+
 def _post_sibling(ctx, rep):
     """ND: PostgreSQL sibling difference, reported in the thorough evidence only"""
     prog = ctx.prog
@@ -1881,7 +2065,8 @@ def check(ctx):
         '(2) _update, _update_msv and _load build that key from the own run, target, task, algorithm and a state vector / value name of it, and write / fill '
         'exactly that item; (3) _load reads the exact key only when present, else the highest run among the entries equal in all five identity fields '
         '(truth table of the filter, ordering on permuted samples); (4) no store into a state vector when nothing matches; '
-        '(5) lock typestate: accesses under the lock, released on every exit, not re-acquired by the nested load. '
+        '(5) lock typestate: accesses under the lock, released on every exit, not re-acquired by the nested load; '
+        '(6) every load unpickles a fresh object: no memoisation / object cache on the read path down to db.util.decode. '
         'Not decided: equality of the bytes after the pickle round trip, Value.__setstate__, concrete histories, the PostgreSQL backend.',
         assumptions=[
             'prime keys in the table are 6-tuples (only _set_prime with the key of rule 1 writes them)',
@@ -1901,12 +2086,14 @@ def check(ctx):
     rule3(ctx, rep, fx)
     rule4(ctx, rep, fx)
     rule5(ctx, rep, fx)
+    rule6(ctx, rep, fx)
     if ctx.thorough:
         _post_sibling(ctx, rep)
     return rep
 
 
 _M = 'db/shelve/model.py'
+_U = 'db/util/__init__.py'
 _LOOP_KEY = """levels = [
             (task, Table.task, None),
             (alg.name(), Table.alg, alg._get_ver()),
@@ -1968,4 +2155,25 @@ VARIANTS = [
     V('logging between acquire and try', 'N', _M, 'Interface._update', 'valid = True', "valid = True\n        self._log.debug('locked for %s', name)", None),
     V('writer arguments passed directly', 'N', _M, 'Interface._update', 'vname = self.__to_key(runid, tn, task, alg, sv, vn)', 'vname = self.__to_key(self._bot()._runid(), self._tn(), self._task(), self._alg(), sv, k)', None),
     V('positive membership test', 'N', _M, 'Interface._load', 'if pk not in pks:', 'if not (pk in pks):', None),
+    # ---- R-C06-6
+    V('decode memoised with lru_cache', 'B', _U, 'decode', 'def decode(entry):', '@functools.lru_cache(maxsize=512)\ndef decode(entry):', 'R-C06-6'),
+    V('decode memoised with functools.cache', 'B', _U, 'decode', 'def decode(entry):', '@functools.cache\ndef decode(entry):', 'R-C06-6'),
+    V('decode keeps the object in a module dict', 'B', _U, 'decode', 'return result', '_CACHE[entry] = result\n    return result', 'R-C06-6'),
+    V('decode answers from a module dict', 'B', _U, 'decode', 'with open(', 'if entry in _CACHE:\n        return _CACHE[entry]\n    with open(', 'R-C06-6'),
+    V('decode returns setdefault of a module dict', 'B', _U, 'decode', 'return result', 'return _CACHE.setdefault(entry, result)', 'R-C06-6'),
+    V('decode files the object with setdefault', 'B', _U, 'decode', 'return result', '_CACHE.setdefault(entry, result)\n    return result', 'R-C06-6'),
+    V('decode remembers the last object in a global', 'B', _U, 'decode', 'return result', 'global _LAST\n    _LAST = result\n    return result', 'R-C06-6'),
+    V('decode reads another directory', 'B', _U, 'decode', 'os.path.join(dawgie.context.data_dbs, entry)', 'os.path.join(dawgie.context.data_stg, entry)', 'R-C06-6'),
+    V('_get_prime memoised', 'B', 'db/shelve/comms.py', 'Connector._get_prime', 'def _get_prime(', '@functools.lru_cache(maxsize=None)\n    def _get_prime(', 'R-C06-6'),
+    V('_get_prime caches on the instance', 'B', 'db/shelve/comms.py', 'Connector._get_prime', 'ret = dawgie.db.util.decode(ret)', 'ret = self._seen.setdefault(key, dawgie.db.util.decode(ret))', 'R-C06-6'),
+    V('_get_prime caches in a class dict', 'B', 'db/shelve/comms.py', 'Connector._get_prime', 'return ret', 'Connector._blobs[key] = ret\n        return ret', 'R-C06-6'),
+    V('unknown decorator on _load', 'B', _M, 'Interface._load', 'def _load(', '@dawgie.util.once\n    def _load(', 'R-C06-6'),
+    V('post reader memoised', 'B', 'db/post/__init__.py', 'Interface.__fill', 'def __fill(', '@functools.lru_cache()\n    def __fill(', 'R-C06-6'),
+    V('decode through pickle.loads', 'N', _U, 'decode', 'result = pickle.load(f)', 'result = pickle.loads(f.read())', None),
+    V('decode with a cache of paths only', 'N', _U, 'decode', "with open(os.path.join(dawgie.context.data_dbs, entry), 'rb') as f:",
+      "fn = _PATHS.get(entry)\n    if fn is None:\n        fn = _PATHS[entry] = os.path.join(dawgie.context.data_dbs, entry)\n    with open(fn, 'rb') as f:", None),
+    V('decode with explicit close', 'N', _U, 'decode', "with open(os.path.join(dawgie.context.data_dbs, entry), 'rb') as f:\n result = pickle.load(f)\n pass",
+      "f = open(os.path.join(dawgie.context.data_dbs, entry), 'rb')\n    try:\n        result = pickle.load(f)\n    finally:\n        f.close()", None),
+    V('decode logs the entry', 'N', _U, 'decode', 'return result', "log.debug('decoded %s', entry)\n    return result", None),
+    V('_get_prime without the temporary', 'N', 'db/shelve/comms.py', 'Connector._get_prime', 'ret = dawgie.db.util.decode(ret)\n return ret', 'return dawgie.db.util.decode(ret)', None),
 ]
